@@ -20,6 +20,8 @@ structure Quirks where
   removeIdEmptyResult : Bool := false
   /-- `QCircuit.repeat(0)` returns one copy -/
   repeatZero : Bool := false
+  /-- `remove_identities` drops any identical adjacent pair, also S·S, T·T, P(θ)·P(θ), CP·CP -/
+  cancelsNonInvolutions : Bool := false
   /-- `gates.I` is listed as classical but the decompiler raises on it -/
   identityGateRaises : Bool := false
   /-- `MCtrl(X(), n)` is not an instance of any `ZB_GATES` class: it ends a decompiler section -/
@@ -41,6 +43,7 @@ def Quirks.ofList (l : List String) : Quirks :=
     or2xorNoArity := l.contains "or2xorNoArity"
     removeIdEmptyResult := l.contains "removeIdEmptyResult"
     repeatZero := l.contains "repeatZero"
+    cancelsNonInvolutions := l.contains "cancelsNonInvolutions"
     identityGateRaises := l.contains "identityGateRaises"
     mctrlXSplits := l.contains "mctrlXSplits"
     dimacsSingleClause := l.contains "dimacsSingleClause"
